@@ -22,11 +22,19 @@ def tla_seq(xs):
     return "<<" + ", ".join(str(x) for x in xs) + ">>"
 
 
-def extract(session) -> Dict:
-    """Universe table of a finished session (classes the class database holds + their children)."""
-    from .universes import words as W
+def supported_pack(pack) -> bool:
+    """The pack shape Search.tla models: plain strategies only, no inferral strategies, no symmetries, one expansion set."""
+    from comb_spec_searcher.strategies.strategy import AbstractStrategy
 
+    strats = list(pack.initial_strats) + [x for st in pack.expansion_strats for x in st] + list(pack.ver_strats)
+    return (not pack.inferral_strats and not pack.symmetries and len(pack.expansion_strats) == 1 and not pack.iterative
+            and all(isinstance(x, AbstractStrategy) for x in strats))
+
+
+def extract(session) -> Dict:
+    """Universe table of a finished session (classes the class database holds + their children), read off the pack."""
     db = session.classdb
+    pack = session.pack
     ids: Dict = {}
 
     def cid(c):
@@ -38,31 +46,44 @@ def extract(session) -> Dict:
         classes = [db.get_class(l) for l in range(len(db.label_to_info))]
     for c in classes:
         cid(c)
+
+    def slot(st, c):
+        k = st.decomposition_function(c)
+        if k is None:
+            return None
+        rule = st(c)
+        return {"ch": [cid(x) for x in k], "pe": st.possibly_empty, "ip": st.ignore_parent, "wk": st.workable, "tw": st.is_two_way(c),
+                "sh": [int(x) for x in rule.shifts()]}
+
+    init_strats = list(pack.initial_strats)
+    exp_strats = list(pack.expansion_strats[0])
     initial, expand = {}, {}
-    rf, ex, atom = W.RemoveFront(), W.Expand(), W.WAtom()
     for c in classes:
-        k = rf.decomposition_function(c)
-        if k is not None:
-            initial[cid(c)] = {"ch": [cid(x) for x in k], "pe": rf.possibly_empty, "ip": rf.ignore_parent, "wk": rf.workable, "tw": rf.is_two_way(c)}
-        k = ex.decomposition_function(c)
-        if k is not None:
-            expand[cid(c)] = {"ch": [cid(x) for x in k], "pe": ex.possibly_empty, "ip": ex.ignore_parent, "wk": ex.workable, "tw": ex.is_two_way(c)}
+        sl = [slot(st, c) for st in init_strats]
+        if any(x is not None for x in sl):
+            initial[cid(c)] = sl
+        sl = [slot(st, c) for st in exp_strats]
+        if any(x is not None for x in sl):
+            expand[cid(c)] = sl
     empty = sorted(i for c, i in ids.items() if c.is_empty())
-    verified = sorted(i for c, i in ids.items() if atom.verified(c))
-    return {"start": 0, "empty": empty, "verified": verified, "initial": initial, "expand": expand, "n": len(ids)}
+    verified = sorted(i for c, i in ids.items() if not c.is_empty() and any(v.verified(c) for v in pack.ver_strats))
+    return {"start": 0, "empty": empty, "verified": verified, "initial": initial, "expand": expand, "n": len(ids),
+            "ninit": len(init_strats), "nexp": len(exp_strats), "flavour": "forest" if session.flavour == "forest" else "base"}
 
 
 def universe_tla(u) -> str:
     def rule(r):
-        return "<<R(%s, %s, %s, %s, %s)>>" % (tla_seq(r["ch"]), tla_bool(r["pe"]), tla_bool(r["ip"]), tla_bool(r["wk"]), tla_bool(r["tw"]))
+        if r is None:
+            return "<<>>"
+        return "<<R(%s, %s, %s, %s, %s, %s)>>" % (tla_seq(r["ch"]), tla_bool(r["pe"]), tla_bool(r["ip"]), tla_bool(r["wk"]), tla_bool(r["tw"]), tla_seq(r["sh"]))
 
     def fn(m):
         if not m:
             return "<<>>"
-        return "(" + " @@ ".join("%d :> %s" % (int(k), rule(v)) for k, v in sorted(m.items(), key=lambda kv: int(kv[0]))) + ")"
+        return "(" + " @@ ".join("%d :> <<%s>>" % (int(k), ", ".join(rule(x) for x in v)) for k, v in sorted(m.items(), key=lambda kv: int(kv[0]))) + ")"
 
-    return "[start |-> 0, empty |-> {%s}, verified |-> {%s}, initial |-> %s, expand |-> %s]" % (
-        ", ".join(map(str, u["empty"])), ", ".join(map(str, u["verified"])), fn(u["initial"]), fn(u["expand"]))
+    return "[start |-> 0, empty |-> {%s}, verified |-> {%s}, ninit |-> %d, nexp |-> %d, flavour |-> \"%s\", initial |-> %s, expand |-> %s]" % (
+        ", ".join(map(str, u["empty"])), ", ".join(map(str, u["verified"])), u["ninit"], u["nexp"], u["flavour"], fn(u["initial"]), fn(u["expand"]))
 
 
 def loop_events(session) -> List[dict]:
@@ -101,7 +122,10 @@ def run_model_session(cfg):
 
     start, pack = sc.build(cfg)
     prefix, pats, alph, st, pk, fl, sch, reverse = cfg
-    s = Session(start, pack, flavour=fl, schedule=sc.SCHEDULES[sch], record=("queue",))
+    if not supported_pack(pack):
+        raise tlc.MachineryError("pack %s is outside the pack shape of Search.tla" % pk)
+    # forest flavour without reverse rules (the model's forest keys are the forward keys)
+    s = Session(start, pack, flavour=fl, schedule=sc.SCHEDULES[sch], reverse=(reverse and fl != "forest"), record=("queue",))
     s.sizes = []
     # sizes after every queue hand-out: wrap the recorder's event sink
     orig_ev = s.q_rec._ev
@@ -117,7 +141,11 @@ def run_model_session(cfg):
 
     def fill():
         with s.cdb_rec.paused():
-            val = (len(set(s.ruledb)), len(s.classdb.label_to_info))
+            if fl == "forest":
+                nk = len({(k.parent, k.children, k.shifts) for k in s.ruledb.table_method._rules})
+            else:
+                nk = len(set(s.ruledb))
+            val = (nk, len(s.classdb.label_to_info))
         for i in range(len(s.sizes)):
             if s.sizes[i] is None:
                 s.sizes[i] = val
@@ -161,6 +189,7 @@ def model_check_universe(run, u, idx, max_checks=5):
     return tlc.run_tlc(wd, "MC_Search", workers=4, timeout=1200, heap="4g")
 
 
+MODEL_PACKS = ["two", "split", "lazy", "trim", "mono"]
 PATTERNS_Q = [("aa",), ("aba", "bb"), ("ab",), ("aa", "aab"), ("abba",), ("aab", "bba"), ("aa", "bb"), ("b",)]
 PATTERNS_T = PATTERNS_Q + [("aaa",), ("abb", "bab"), ("aabb",), ("abab",), ("a", "aaa"), ("ab", "ba"), ("aaa", "aba", "bb")]
 
@@ -170,9 +199,19 @@ def campaign(run, tier, seed, want_mc=True):
     Returns (number of loop traces accepted, rejected list, number of universes model-checked)."""
     import concurrent.futures
     from .common import pmap
+    from .drivers import search_campaign as sc
 
     pats = PATTERNS_Q if tier == "quick" else PATTERNS_T
     cfgs = [("", p, "ab", "s0", "plain", fl, sch, True) for p in pats for fl in ("default", "forget") for sch in ("one", "three", "all", "mixed")]
+    # several strategies per class, and the forest flavour (a class may become verified by one of its own earlier packets)
+    for pk in MODEL_PACKS:
+        for p in pats[: (5 if tier == "quick" else len(pats))]:
+            for fl in ("default", "forest"):
+                if fl != "forest" and sc.PACKS[pk].get("lazy"):
+                    continue
+                for sch in (("one", "all") if tier == "quick" else ("one", "three", "all", "mixed")):
+                    cfgs.append(("", p, "ab", sc.PACK_STATS.get(pk, "s0"), pk, fl, sch, True))
+    cfgs += [("", p, "ab", "s0", "plain", "forest", sch, True) for p in pats for sch in ("one", "all")]
     jobs = pmap(run_model_session, cfgs, procs=16, chunk=1)
     with concurrent.futures.ThreadPoolExecutor(max_workers=12) as ex:
         verdicts = list(ex.map(lambda ij: validate_loop(run, ij[1], ij[0]), list(enumerate(jobs))))
@@ -196,7 +235,7 @@ def campaign(run, tier, seed, want_mc=True):
         seen = {}
         for job in jobs:
             key = json.dumps(job["universe"], sort_keys=True)
-            if key not in seen and "|default|one" in job["tid"]:
+            if key not in seen and ("|default|one" in job["tid"] or "|forest|one" in job["tid"]):
                 seen[key] = job
         with concurrent.futures.ThreadPoolExecutor(max_workers=4) as ex:
             results = list(ex.map(lambda ij: model_check_universe(run, ij[1]["universe"], ij[0], 6 if tier == "quick" else 10), list(enumerate(seen.values()))))
